@@ -1,7 +1,8 @@
 // C02 correspondence harness: the three neighbour searches of tapkee through the internal entry point
 //   tapkee::tapkee_internal::find_neighbors(method, begin, end, callback, k, false)
-// in : knn method=brute|vptree|covertree k=3 cb=plain|kernel metric=L1|Linf|matrix pts=..|m=.. [kern=lin|matrix km=..] [vs=..]
-// out: ids=1,2,3;0,2,3;...  [raw=q,c1,c2,..;..]  ev=<distance evals>,<kernel evals>,<uniform_random draws>
+// in : knn method=brute|vptree|covertree k=3 cb=plain|kernel metric=L1|Linf|matrix pts=..|m=.. [kern=lin|matrix km=..] [vs=..] [rng=..]
+// out: ids=1,2,3;0,2,3;...  [raw=q,c1,c2,..;..]  ev=<distance evals>,<kernel evals>,<uniform_random draws> [foreign=<n>]
+//   foreign : number of callback arguments that were not elements of the range (only with rng=, only when > 0)
 //   ids : the neighbour list of every sample, exactly as returned
 //   raw : cover tree only — the candidate sets returned by CoverTreeWrapper::k_nearest_neighbor (entry 0 = the
 //         query point), obtained by repeating the first half of find_neighbors_covertree_impl on the same inputs;
@@ -103,9 +104,7 @@ int main()
         vh::case_alarm(120);
         auto f = vh::fields(line);
         vk::Space sp = vk::parse_space(f);
-        std::vector<int> data(sp.N);
-        for (int i = 0; i < sp.N; i++)
-            data[i] = i;
+        std::vector<int> data = sp.range(); // identity, or the elements given by rng=
         IndexType k = std::stoi(f["k"]);
         bool dump = f.count("dump") && f["dump"] == "1";
         std::string out;
@@ -113,7 +112,7 @@ int main()
             out = run(f["method"], data.begin(), data.end(), vk::KernelD(vk::KernCb{&sp}), k, dump);
         else
             out = run(f["method"], data.begin(), data.end(), vk::PlainD(vk::DistCb{&sp}), k, dump);
-        std::cout << out << " ev=" << sp.ndist << "," << sp.nkern << "," << vk::stream().draws << std::endl;
+        std::cout << out << " ev=" << sp.ndist << "," << sp.nkern << "," << vk::stream().draws << sp.foreign_suffix() << std::endl;
     }
     return 0;
 }
